@@ -52,7 +52,9 @@ def run_case(ctx, case):
 
 
 def judge_pair(ctx, case, a, b):
-    sa, sb = str(a), str(b)
+    # "produce the same terminal string": produced afresh from the runs (a copy shares the
+    # runs but no memo), so a stale memoised string cannot vouch for itself
+    sa, sb = str(a.copy()), str(b.copy())
     want = sa == sb
     sig = ("C19", "pair", sa, sb)
     problems = []
@@ -74,7 +76,7 @@ def judge_pair(ctx, case, a, b):
 
 
 def judge_str(ctx, case, a, s):
-    want = str(a) == s
+    want = str(a.copy()) == s
     problems = []
     try:
         r1, r2 = (a == s), (s == a)
